@@ -190,6 +190,11 @@ func render(n *Node) string {
 		return "for p(" + id + ") != nil {\n" + renderList(n.Body) + "\nbreak\n}"
 	case "callback":
 		// a script function handed to a Go function and called back from there, n.N times
+		if n.Val == 1 {
+			// the Go side wants func(int64) error and looks at that error itself: a script error inside the
+			// callback is still the script's error, it does not become a return value the host may ignore
+			return "hce(" + strconv.Itoa(n.N) + ", func(q" + id + ") {\n" + renderList(n.Body) + "\nreturn nil\n})"
+		}
 		if n.Var {
 			return "hcr(" + strconv.Itoa(n.N) + ", func(q" + id + ") {\n" + renderList(n.Body) + "\nreturn 7\n})"
 		}
@@ -817,7 +822,13 @@ func (g *gen) stmt(c gctx) *Node {
 				return &Node{K: "whilec", ID: id, Var: g.r.Intn(2) == 0, Body: g.stmts(lc, 2)}
 			}
 			fc := gctx{depth: c.depth + 1, inFunc: true}
-			return &Node{K: "callback", ID: id, N: 1 + g.r.Intn(3), Var: g.r.Intn(2) == 0, Body: g.stmts(fc, 3)}
+			cb := &Node{K: "callback", ID: id, N: 1 + g.r.Intn(3), Var: g.r.Intn(2) == 0}
+			if g.r.Intn(3) == 0 {
+				cb.Val = 1
+				fc.noRet = true // the Go type wants an error result: only the literal `return nil` at the end
+			}
+			cb.Body = g.stmts(fc, 3)
+			return cb
 		case k == 13 && !leaf && g.r.Intn(4) == 0:
 			bc := inner
 			bc.noBrk = true
@@ -962,6 +973,15 @@ func (Prop) Run(t *testing.T, c *harness.Case, verbose bool) *harness.Result {
 			f(i)
 		}
 	})
+	e.Define("hce", func(n int64, f func(int64) error) int64 {
+		var failed int64
+		for i := int64(0); i < n; i++ {
+			if err := f(i); err != nil {
+				failed++ // a host that tolerates failing items
+			}
+		}
+		return failed
+	})
 	e.Define("hcr", func(n int64, f func(int64) int64) int64 {
 		var s int64
 		for i := int64(0); i < n; i++ {
@@ -1081,6 +1101,9 @@ func valid(w *Work) bool {
 			fc := gctx{inFunc: true}
 			switch n.K {
 			case "func", "callrec", "funcvar", "anoncall", "defer-anon", "defer-named", "fcall", "callback":
+				if n.K == "callback" && n.Val == 1 {
+					fc.noRet = true
+				}
 				if !chk(n.Body, fc) {
 					return false
 				}
